@@ -72,6 +72,14 @@ func minLenFromFacts(g *core.Graph, info *types.Info, n *core.GNode, base ast.Ex
 		}
 		c, isConst := core.ConstInt(info, cexpr)
 		if !isConst {
+			// a parameter of a helper whose call site passes a constant (positionalParams(raw, 1)), never assigned in the helper
+			if id, isId := core.Unparen(cexpr).(*ast.Ident); isId {
+				if v, has := minLenParamConst[info.Uses[id]]; has {
+					c, isConst = v, true
+				}
+			}
+		}
+		if !isConst {
 			return
 		}
 		// normalise to a statement about len: len OP c is `truth`
@@ -264,6 +272,15 @@ func minLenFromFacts(g *core.Graph, info *types.Info, n *core.GNode, base ast.Ex
 						hg := g.Prog.Graph(h)
 						hmin, nret := int64(-1), 0
 						minLenDepth++
+						saved := minLenParamConst
+						minLenParamConst = map[types.Object]int64{}
+						for ai, a := range c.Args {
+							if v, isC := core.ConstInt(info, a); isC {
+								if po := h.ParamObj(ai); po != nil && !core.AssignsObj(h.Pkg.TypesInfo, h.Body, po) {
+									minLenParamConst[po] = v
+								}
+							}
+						}
 						for _, hr := range hg.Returns() {
 							if definitelyErrorReturn(hg, h, hr) {
 								continue
@@ -282,6 +299,7 @@ func minLenFromFacts(g *core.Graph, info *types.Info, n *core.GNode, base ast.Ex
 								hmin = m
 							}
 						}
+						minLenParamConst = saved
 						minLenDepth--
 						if nret > 0 && hmin > best {
 							best = hmin
@@ -318,6 +336,9 @@ func minLenFromFacts(g *core.Graph, info *types.Info, n *core.GNode, base ast.Ex
 }
 
 var minLenDepth = 0
+
+// minLenParamConst: while the success returns of a helper are examined for one call site, the constant arguments of that call
+var minLenParamConst map[types.Object]int64
 
 // lowerBoundExpr returns a lower bound (>= 0) of the integer expression e at node n, derived from constants,
 // sums, widening conversions, len() of guarded buffers and dominating comparisons of variables with
